@@ -727,7 +727,8 @@ def run(ctx: Ctx):
         if enc in car and mode is not None:
             want, badb = whole_input_oracle(data, enc, mode, lambda b, e, m: real_markup(bytes([b]), e, m)[0])
             if u != want or badb:
-                ctx.violation(f"corpus {v['file']}: conversion of byte(s) {[hex(b) for b in badb]} does not denote their Windows-1252 character",
+                ctx.violation(f"corpus {v['file']}: " + (f"conversion of byte(s) {[hex(b) for b in badb]} does not denote their Windows-1252 character"
+                                                         if badb else "result is not the in-order concatenation of each byte's conversion"),
                               case=c, expected=want if not badb else "each byte 0x80-0x9F replaced by a reference to its cp1252 character",
                               observed=u, stream="corpus")
     ctx.exhaustive_parts.append(f"smart quotes: 32 bytes x 4 modes x {len(encs)} encodings ({', '.join(encs)}), alone and (carriers) in four contexts")
@@ -1035,16 +1036,53 @@ def run(ctx: Ctx):
             if got != want:
                 ctx.violation(f"detwingle({form.__name__}) differs from detwingle(bytes)", case={"op": "detwingle", "bytes": list(data), "form": form.__name__},
                               expected=want.hex(), observed=got if isinstance(got, str) else got.hex(), stream="detwingle-argform")
-    # argument checks
-    for main, emb in [("utf8", "windows-1252"), ("UTF-8", "WINDOWS_1252"), ("utf-8", "windows_1252"), ("Utf8", "Windows-1252"),
-                      ("latin-1", "windows-1252"), ("utf8", "iso-8859-1"), ("utf8", "cp1252"), ("utf_8", "windows-1252")]:
-        try:
-            got = "ok " + L(U.detwingle(b"a\x93", main, emb))
-        except NotImplementedError:
-            got = "NotImplementedError"
-        dl.append(f"c19 detcall 97,147 {S(main)} {S(emb)}"); di.append(got); dc.append({"op": "detcall", "main": main, "embedded": emb})
-        ctx.case(None)
-        ctx.count("detwingle:argcheck:" + got.split()[0])
+    # argument checks: the optional encoding arguments. Accepted by the documentation/signature: main "utf8" (the default) or
+    # "utf-8", embedded "windows-1252" (the default) with "_" for "-" (the library's own tests say "windows_1252"), all in any
+    # letter case. For these every call form must return what the one-argument call returns (and so satisfy the property);
+    # an exception from an accepted spelling is a failure of the property on that input. Other spellings: model only.
+    def variants(name, n, rr):
+        out = {name, name.upper(), name.title(), name.replace("-", "_"), name.replace("-", "_").upper(), name.replace("-", "_").title()}
+        while len(out) < n:
+            out.add("".join(ch.upper() if rr.random() < 0.5 else ch for ch in (name if rr.random() < 0.5 else name.replace("-", "_"))))
+        return sorted(out)
+
+    r = ctx.rng("detcall")
+    emb_ok = variants("windows-1252", ctx.n(24, 120), r)
+    main_ok = sorted({"utf8", "utf-8", "UTF8", "UTF-8", "Utf8", "Utf-8", "uTf-8", "utF8"})
+    others = [("latin-1", "windows-1252"), ("utf8", "iso-8859-1"), ("utf8", "cp1252"), ("utf_8", "windows-1252"), ("utf8", "windows1252"),
+              ("utf8", "latin-1"), ("utf-16", "windows-1252"), ("utf8", "WINDOWS 1252"), ("ascii", "windows_1252"), ("utf8", "CP1252")]
+    datas = [b"a\x93", b"\xe2\x98\x83 caf\xc3\xa9", b"\xff\xfeplain", b"\x93\x94" * 20, b"", b"\xe2\x82", b"plain"]
+    forms = {
+        "positional": lambda d, m, e: U.detwingle(d, m, e),
+        "keywords": lambda d, m, e: U.detwingle(d, main_encoding=m, embedded_encoding=e),
+        "embedded-keyword-only": lambda d, m, e: U.detwingle(d, embedded_encoding=e),
+        "main-keyword-only": lambda d, m, e: U.detwingle(d, main_encoding=m),
+        "instance-call": lambda d, m, e: U(b"x").detwingle(d, m, e),
+    }
+    pairs = [(m, e, True) for e in emb_ok for m in (r.sample(main_ok, 2) + ["utf8"])] + [(m, e, False) for m, e in others]
+    for main, emb, accepted in pairs:
+        for fname, form in forms.items():
+            data = r.choice(datas)
+            eff_main = "utf8" if fname == "embedded-keyword-only" else main
+            eff_emb = "windows-1252" if fname == "main-keyword-only" else emb
+            case = {"op": "detcall", "bytes": list(data), "main": main, "embedded": emb, "form": fname}
+            try:
+                got = "ok " + L(form(data, main, emb))
+            except NotImplementedError:
+                got = "NotImplementedError"
+            except Exception as e_:
+                got = "raised " + type(e_).__name__
+            dl.append(f"c19 detcall {L(data)} {S(eff_main)} {S(eff_emb)}"); di.append(got); dc.append(case)
+            acc_here = accepted or (fname == "embedded-keyword-only" and eff_emb.replace("_", "-").lower() == "windows-1252") \
+                or (fname == "main-keyword-only" and eff_main.lower() in ("utf8", "utf-8"))
+            ctx.case(("D", main, emb, fname) if accepted else None)
+            ctx.count("detwingle:argcheck:" + ("accepted-spelling" if acc_here else "other-spelling") + ":" + got.split()[0])
+            if acc_here:
+                want = "ok " + L(real_detwingle(data))
+                if got != want:
+                    ctx.violation(f"detwingle with the accepted spellings main_encoding={eff_main!r}, embedded_encoding={eff_emb!r} ({fname}) "
+                                  + ("raised " + got if not got.startswith("ok") else "differs from the one-argument call"),
+                                  case=case, expected=want, observed=got, stream="detwingle-argcheck")
 
     # C4. the Lean strict UTF-8 decoder (the theorems' notion of validity) vs CPython's
     r = ctx.rng("utf8dec")
@@ -1117,6 +1155,27 @@ def replay(path):
         if o:
             print("property:", o[0], "; demanded:", o[1])
         return 1 if o else 0
+    if op == "detcall":
+        from bs4.dammit import UnicodeDammit as U
+        data = bytes(c["bytes"])
+        try:
+            if c.get("form") == "keywords":
+                got = U.detwingle(data, main_encoding=c["main"], embedded_encoding=c["embedded"])
+            elif c.get("form") == "embedded-keyword-only":
+                got = U.detwingle(data, embedded_encoding=c["embedded"])
+            elif c.get("form") == "main-keyword-only":
+                got = U.detwingle(data, main_encoding=c["main"])
+            elif c.get("form") == "instance-call":
+                got = U(b"x").detwingle(data, c["main"], c["embedded"])
+            else:
+                got = U.detwingle(data, c["main"], c["embedded"])
+            got = "ok " + L(got)
+        except Exception as e:
+            got = "raised " + type(e).__name__
+        want = "ok " + L(U.detwingle(data))
+        print(f"detwingle({data!r}, main_encoding={c['main']!r}, embedded_encoding={c['embedded']!r}) [{c.get('form')}] -> {got}")
+        print("one-argument call ->", want)
+        return 0 if got == want else 1
     if op == "detwingle":
         data = bytes(c["bytes"])
         out = real_detwingle(data)
